@@ -107,6 +107,7 @@ type cliRun struct {
 	henc     *hpack.Encoder
 	hencBuf  bytes.Buffer
 	hdec     *hpack.Decoder
+	hdecMu   sync.Mutex
 	rdDone   chan struct{}
 	reqs     map[int]*cReq
 	reqMu    sync.Mutex
@@ -526,6 +527,8 @@ func (r *cliRun) decodeBlock(d *fdesc, frag []byte, end bool) {
 		d.HBad = true
 		return
 	}
+	r.hdecMu.Lock() // the stepping goroutine sets the decoder's table limit when it sends SETTINGS
+	defer r.hdecMu.Unlock()
 	r.hdec.SetEmitFunc(func(f hpack.HeaderField) {
 		r.pendingFields = append(r.pendingFields, f)
 		r.pendingSize += int(f.Size())
@@ -846,7 +849,9 @@ func (r *cliRun) step(st *cStep) {
 				switch p[0] {
 				case 1:
 					d.HTS = clampInt(p[1])
+					r.hdecMu.Lock()
 					r.hdec.SetAllowedMaxDynamicTableSize(p[1])
+					r.hdecMu.Unlock()
 				case 2:
 					if p[1] > 1 {
 						d.SBad = 1
